@@ -184,6 +184,21 @@ func (eval Evaluator) evaluateNew(ct *rlwe.Ciphertext, log2min, log2max float64,
 
 	if fulldomain {
 
+		// Checks that cInv and sign have at least one level remaining above the minimum
+		// level required for the bootstrapping (this is not ensured by the previous steps
+		// when no normalization factor is used).
+		if cInv.Level() < btp.MinimumInputLevel()+levelsPerRescaling {
+			if cInv, err = btp.Bootstrap(cInv); err != nil {
+				return nil, fmt.Errorf("fulldomain: bootstrap(cInv): %w", err)
+			}
+		}
+
+		if sign.Level() < btp.MinimumInputLevel()+levelsPerRescaling {
+			if sign, err = btp.Bootstrap(sign); err != nil {
+				return nil, fmt.Errorf("fulldomain: bootstrap(sign): %w", err)
+			}
+		}
+
 		// Multiplies back with the encrypted sign
 		if err = eval.MulRelin(cInv, sign, cInv); err != nil {
 			return nil, fmt.Errorf("fulldomain: mul(cInv):  %w", err)
